@@ -199,6 +199,12 @@ class SSHKnownHosts:
                port: Optional[int] = None) -> _KnownHostsResult:
         """Find host keys matching specified host, address, and port"""
 
+        # Host names are case-insensitive. Entries are matched against
+        # the lower case form, as written by OpenSSH, so that entries
+        # which revoke or exclude a host can't be avoided by spelling
+        # its name differently.
+        host = host.lower()
+
         if addr:
             ip: Optional[IPAddress] = ip_address(addr)
         else:
